@@ -221,7 +221,14 @@ def builtin(eng: Engine, e, st: State, name: str, args: List[V], kwargs):
         v = args[0]
         if isinstance(v, VTuple):
             return [(st, VTuple(list(v.items), is_list=(name == "list")))]
-        if isinstance(v, VPy) and isinstance(v.obj, tuple) and v.obj[0] in ("items", "values"):
+        if isinstance(v, VPy) and isinstance(v.obj, tuple) and v.obj[0] == "values":
+            d = v.obj[1]
+            kl = eng.list_of(d, st, e)
+            arr = z3.Const(fresh_name("vals"), z3.ArraySort(z3.IntSort(), d.val.sort().range()))
+            i = z3.Int(fresh_name("i"))
+            st.assume(z3.ForAll([i], z3.Implies(z3.And(0 <= i, i < kl.n), arr[i] == d.val[kl.arr[i]]), patterns=[arr[i]]))
+            return [(st, VList(kl.n, arr, T.list(d.ty.args[1]), is_tuple=(name == "tuple")))]
+        if isinstance(v, VPy) and isinstance(v.obj, tuple) and v.obj[0] == "items":
             raise Unsupported("list(dict.items())", e)
         l = eng.list_of(v, st, e)
         return [(st, VList(l.n, l.arr, l.ty, is_tuple=(name == "tuple"), distinct=l.distinct))]
@@ -296,7 +303,30 @@ def method(eng: Engine, e: ast.Call, st: State, recv: V, m: str, args: List[V], 
         c = eng.registry.opaque_methods.get((recv.ty.name, m))
         if c is None:
             raise Unsupported("no assumed contract for %s.%s" % (recv.ty.name, m), e)
-        return apply_contract(eng, st, c, args, kwargs, e, self_obj=recv)
+        res = apply_contract(eng, st, c, args, kwargs, e, self_obj=recv)
+        outs = getattr(c, "out_params", None)
+        if not outs:
+            return res
+        # out-parameters: the callee mutates a container argument in place; write the new value back to the argument's l-value
+        names = [n for n in c.params if n != "self"]
+        final = []
+        for (s1, v) in res:
+            if isinstance(v, Raised):
+                final.append((s1, v))
+                continue
+            argmap = dict(zip(names, args))
+            argmap.update(kwargs)
+            argmap["self"] = recv
+            cur = [(s1, None)]
+            for pname, fn in outs.items():
+                node = e.args[names.index(pname)] if names.index(pname) < len(e.args) else next(k.value for k in e.keywords if k.arg == pname)
+                nxt = []
+                for (s2, o) in cur:
+                    nv = fn(eng, s2, argmap)
+                    nxt.extend(eng.store_back(node, nv, s2, e))
+                cur = nxt
+            final.extend([(s2, v) for (s2, o) in cur])
+        return final
     if isinstance(recv, VPy) and isinstance(recv.obj, tuple) and recv.obj[0] == "emptyset":
         if m in ("union", "update") and args:
             base = empty_like(eng, eng.set_of(args[0], st, e), e)
